@@ -292,8 +292,8 @@ UNIT['parts'] += [
 BOUNDED = {'C12': [{'name': 'single-structural-faults-never-crash', 'script': 'modelfaults.py', 'args': [], 'quick_args': ['--cover'], 'thorough_args': ['--models', '1000'],
                     'functions': ['dmntk_model::parse', 'ModelEvaluator::new (all builders of model-evaluator)', 'ModelEvaluator::evaluate_invocable for every decision / knowledge model / decision service with an empty context'],
                     'bound': 'quick: the 19 example models of a greedy cover of every element name, attribute name and parent/child multiplicity used by the 148 shipped example models (thorough: all 148), each with every single fault of the kinds delete element, '
-                             'duplicate element, empty text node, delete / empty attribute, set attribute to a foreign non-ASCII text (from an even and from an odd byte offset), retarget href to a missing id, to its own element, make the target require it back, '
-                             'set a typeRef to the name of its own item definition (quick about 34 000 models, thorough about 150 000): parse + build + evaluate every invocable on the real code, '
+                             'duplicate element, empty text node, delete / empty attribute, set attribute to a foreign non-ASCII text (from an even and from an odd byte offset), empty an element of its children, swap an element with the sibling that follows it, retarget href to a missing id, to its own element, make the target require it back, '
+                             'set a typeRef to the name of its own item definition (quick about 40 000 models, thorough about 180 000), plus 92 generated cyclic models (28 shapes and their variants with references written as `namespace#id`): parse + build + evaluate every invocable on the real code, '
                              'no panic and no crash of the process. The recursive example N_0088 is excluded (known finding: stack overflow).'}]}
 
 BOUNDED['C03'] = [{'name': 'hit-policy-differential', 'script': 'hpdiff.py', 'args': [],
